@@ -367,7 +367,10 @@ def _g1(ctx: Context) -> None:
     n_cond = n_succ = n_auth = 0
     base: dict[str, int] = {}
     bad_exc: dict[int, set] = {}
+    live = cfg.reachable_from(cfg.entry.id)
     for nid in sorted(lm.members):
+        if nid not in live:
+            continue  # (e.g. the release inside `finally: if not connected: ...` on the return copy, where connected is True)
         u = cfg.nodes[nid]
         for d, lab, exc in u.succ:
             if d in lm.members:
@@ -586,6 +589,21 @@ def _g2(ctx: Context) -> None:
                 )
                 if good:
                     gate_a += ctx.edges(cfg, n, "T")
+        # (b') the same question asked by an explicit loop: `for host in self.hosts: if <pred(host)>: <yes>` - the
+        #      outcome `pred holds` of that test, for the predicate _get_connect_hosts filters with, is an untried address
+        if t[0] == "cmp" and len(t[1]) == 1 and t[1][0] in ("NotIn", "In") and any(s_[0] in ("each", "iter") and len(s_) == 2 and _self_attr(s_[1]) == hm.H for s_ in subterms(t)):
+            def _as_comp(x):
+                if not isinstance(x, tuple):
+                    return x
+                if x and x[0] == "const":
+                    return x
+                if len(x) == 2 and x[0] in ("each", "iter") and _self_attr(x[1]) == hm.H:
+                    return ("cvar", "h")
+                return tuple(_as_comp(y) for y in x)
+
+            as_notin = _as_comp(t) if t[1][0] == "NotIn" else ("cmp", ("NotIn",), _as_comp(t)[2])
+            if _canon(as_notin) == hm.pred:
+                gate_b += ctx.edges(cfg, n, "T" if t[1][0] == "NotIn" else "F")
         # (b) any(normalised host not in F for host in self.hosts)
         if t[0] == "call" and t[1] == ("glob", "any") and len(t[2]) == 1 and not t[3] and t[2][0][0] == "comp":
             comp = t[2][0]
@@ -996,6 +1014,20 @@ def _g3(ctx: Context) -> None:
         if w is None:
             continue
         rf = _self_attr(T.of(cfg, en, ce.args[0])) if ce.args else None
+        if rf is None and ce.args:
+            # `fut = loop.create_future(); self.<attr> = fut; ... interrupt(fut, ..)`: the future handed to interrupt() is the
+            # one published in an attribute of self (same value term)
+            at = strip_sites(T.of(cfg, en, ce.args[0]))
+            pub = set()
+            for n in cfg.nodes:
+                a = n.ast
+                if n.kind == "stmt" and isinstance(a, (ast.Assign, ast.AnnAssign)) and a.value is not None:
+                    for tg in (a.targets if isinstance(a, ast.Assign) else [a.target]):
+                        if isinstance(tg, ast.Attribute) and isinstance(tg.value, ast.Name) and tg.value.id == "self" and strip_sites(T.of(cfg, n, a.value)) == at \
+                                and at[0] == "call":
+                            pub.add(tg.attr)
+            if len(pub) == 1:
+                rf = pub.pop()
         if rf is None or len(ce.args) < 2:
             ck.unknown("C10.G3", "interrupt() is not called with (self.<future>, <exception class>, ..)", ctx.loc(f, en))
             continue
@@ -1465,9 +1497,31 @@ def _g7(ctx: Context) -> None:
         ck.unknown("C10.G7", "connection_lost no longer informs the connection", pf.loc())
         return
     gate = _identity_gate_edges(ctx, pcfg, [("param", "self"), ("attr", ("param", "self"), "transport")])
-    for n, _c in calls:
-        ctx.must_pass("C10.G7", pcfg, n, "connection.protocol is self [identity outcome]", gate,
-                      desc="connection_lost reaches _connection_lost (and with it _start_connector) only for the connection's current protocol")
+    lf = ctx.func(f"{HC}._connection_lost")
+    lcfg = ctx.cfg(lf.qualname)
+    reporter_p = [("param", "self"), ("attr", ("param", "self"), "transport")]
+    for n, c in calls:
+        if pcfg.find_path(pcfg.entry.id, n.id, avoid_edges=gate) is None:
+            ck.holds("C10.G7", "connection_lost reaches _connection_lost (and with it _start_connector) only for the connection's current protocol", ctx.loc(pf, n))
+            continue
+        # the test may sit in _connection_lost itself, against the reporting protocol handed over as an argument
+        reporter_l = []
+        params = lf.pos_params[1:]
+        for i, a in enumerate(c.args):
+            if T.of(pcfg, n, a) in reporter_p and i < len(params):
+                reporter_l.append(("param", params[i]))
+        for kw in c.keywords:
+            if kw.arg and T.of(pcfg, n, kw.value) in reporter_p:
+                reporter_l.append(("param", kw.arg))
+        gate_l = _identity_gate_edges(ctx, lcfg, reporter_l) if reporter_l else []
+        starts = [m for m, _c2 in ctx.nodes_calling_name(lcfg, "_start_connector", "_start_reconnecting")]
+        if reporter_l and gate_l and starts:
+            for m in starts:
+                ctx.must_pass("C10.G7", lcfg, m, "<reporting protocol> is connection.protocol [identity outcome]", gate_l,
+                              desc="_connection_lost starts the connector only when the reporting protocol is the connection's current one")
+        else:
+            ctx.must_pass("C10.G7", pcfg, n, "connection.protocol is self [identity outcome]", gate,
+                          desc="connection_lost reaches _connection_lost (and with it _start_connector) only for the connection's current protocol")
     # and _drop_transport really clears the reference (so a dropped connection fails that test)
     df = ctx.func(f"{HC}._drop_transport")
     cleared = any(isinstance(x, ast.Assign) and any(isinstance(t, ast.Attribute) and t.attr == "protocol" for t in x.targets) and isinstance(x.value, ast.Constant) and x.value.value is None
